@@ -92,7 +92,7 @@ pub enum ReqCtl {
 pub struct Handle {
     pub ctrls: Option<Vec<ReqCtl>>,
     pub tmo: bool,
-    /// SearchOptions token ≥ 1: sizelimit = tok, timelimit = tok + 1, deref = tok % 4, typesonly = tok odd
+    /// SearchOptions as one number ≥ 1: ((sizelimit * 100000 + timelimit) * 4 + deref) * 2 + typesonly
     pub opts: Option<u64>,
 }
 
@@ -363,6 +363,8 @@ pub struct WireReq {
     /// canonical text `[ctls]/o<opts>/q<tok>`
     pub text: String,
     pub ctls: Option<Vec<ReqCtl>>,
+    /// the decoded request fields (everything but the controls)
+    pub fields: String,
 }
 
 #[derive(Default, Debug)]
@@ -414,21 +416,47 @@ fn decode_req_ctl(t: &StructureTag) -> Option<ReqCtl> {
     }
 }
 
-/// `o<tok>` / `o-` / `o?` from the fields of a SearchRequest
+pub fn opts_token(deref: u64, typesonly: bool, sizelimit: u64, timelimit: u64) -> u64 {
+    ((sizelimit * 100000 + timelimit) * 4 + deref) * 2 + typesonly as u64
+}
+
+/// `<tok>` / `-` (all defaults) / `?` from the fields of a SearchRequest
 fn decode_opts(op: &StructureTag) -> String {
     let f = |i: usize| child(op, i).and_then(bytes_of).map(|b| twos(b));
     match (f(2), f(3), f(4), f(5)) {
         (Some(deref), Some(size), Some(time), Some(types)) => {
             if deref == 0 && size == 0 && time == 0 && types == 0 {
                 String::from("-")
-            } else if time == size + 1 && deref == size % 4 && (types != 0) == (size % 2 == 1) {
-                size.to_string()
+            } else if (0..4).contains(&deref) && size >= 0 && (0..100000).contains(&time) {
+                opts_token(deref as u64, types != 0, size as u64, time as u64).to_string()
             } else {
                 String::from("?")
             }
         }
         _ => String::from("?"),
     }
+}
+
+/// every field of the SearchRequest but the controls, decoded: base, scope, deref, sizeLimit,
+/// timeLimit, typesOnly, filter (as a tree), attributes
+fn decode_fields(op: &StructureTag) -> String {
+    let b = |i: usize| child(op, i).and_then(bytes_of);
+    let n = |i: usize| b(i).map(|x| twos(x).to_string()).unwrap_or_else(|| String::from("?"));
+    let attrs = match child(op, 7).map(|t| &t.payload) {
+        Some(PL::C(ks)) => ks.iter().map(|k| bytes_of(k).map(|x| String::from_utf8_lossy(x).to_string()).unwrap_or_else(|| String::from("?"))).collect::<Vec<_>>().join(","),
+        _ => String::from("?"),
+    };
+    format!(
+        "base={} scope={} deref={} sizeLimit={} timeLimit={} typesOnly={} filter={} attrs=[{}]",
+        b(0).map(|x| String::from_utf8_lossy(x).to_string()).unwrap_or_else(|| String::from("?")),
+        n(1),
+        n(2),
+        n(3),
+        n(4),
+        n(5),
+        child(op, 6).map(tlv).unwrap_or_else(|| String::from("?")),
+        attrs
+    )
 }
 
 impl Server {
@@ -471,7 +499,7 @@ impl Server {
                     decode_opts(op),
                     q
                 );
-                self.obs.borrow_mut().reqs.push(WireReq { id, op: real_encode(op), text, ctls });
+                self.obs.borrow_mut().reqs.push(WireReq { id, op: real_encode(op), text, ctls, fields: decode_fields(op) });
                 self.answer(id);
             }
             16 => {
@@ -553,8 +581,10 @@ pub fn raw_ctl(c: &ReqCtl) -> RawControl {
 }
 
 pub fn opts_of(tok: u64) -> SearchOptions {
-    let deref = match tok % 4 { 0 => DerefAliases::Never, 1 => DerefAliases::Searching, 2 => DerefAliases::Finding, _ => DerefAliases::Always };
-    SearchOptions::new().deref(deref).typesonly(tok % 2 == 1).sizelimit(tok as i32).timelimit(tok as i32 + 1)
+    let typesonly = tok % 2 == 1;
+    let deref = match (tok / 2) % 4 { 0 => DerefAliases::Never, 1 => DerefAliases::Searching, 2 => DerefAliases::Finding, _ => DerefAliases::Always };
+    let rest = tok / 8;
+    SearchOptions::new().deref(deref).typesonly(typesonly).sizelimit((rest / 100000) as i32).timelimit((rest % 100000) as i32)
 }
 
 pub fn apply_handle(ldap: &mut Ldap, h: &Handle) {
@@ -1082,6 +1112,34 @@ fn search_case(out: &mut Out, h: &Handle, pages: &[Page], label: &str) {
         Ending::Panic => String::from("panic"),
     };
     out.r(&format!("streams.search-entries-refs-merged {}", label), real == expected, &format!("expected {} real {} ; pages={}", expected, real, pages_text(pages)));
+    // the referral list on its own, straight from the script: the Done's own referrals first, then
+    // the URIs of the reference messages in the order they were sent
+    if let Some((done_refs, msg_uris)) = script_refs(pages) {
+        let mut want = done_refs.clone();
+        want.extend(msg_uris.iter().cloned());
+        let got = real.split(':').nth(2).and_then(|r| r.split('/').nth(1)).unwrap_or("?").to_string();
+        out.r(
+            &format!("streams.search-refs-merged done_refs={} ref_uris={} {}", done_refs.len(), msg_uris.len(), label),
+            got == hexlist(&want),
+            &format!("result refs {} expected {} (done's {} then the reference messages' {}) ; pages={}", got, hexlist(&want), hexlist(&done_refs), hexlist(&msg_uris), pages_text(pages)),
+        );
+    }
+}
+
+/// (referrals of the SearchResultDone, URIs of the reference messages before it) of a first page
+/// that ends in Done and has only well-formed references
+pub fn script_refs(pages: &[Page]) -> Option<(Vec<Vec<u8>>, Vec<Vec<u8>>)> {
+    let Some(Page::Script(l)) = pages.first() else { return None };
+    let mut uris = vec![];
+    for r in l {
+        match r {
+            Recv::Item(i) if i.k == K::R => uris.extend(i.uris.clone()?),
+            Recv::Item(_) => {}
+            Recv::Done(d) => return Some((d.refs.clone(), uris)),
+            _ => return None,
+        }
+    }
+    None
 }
 
 pub fn run(thorough: bool, mut rng: Rng, mut out: Out) {
@@ -1231,5 +1289,60 @@ pub fn run(thorough: bool, mut rng: Rng, mut out: Out) {
         out.case(&format!("search|{}", pages_text(&pages)), n_items >= 1);
         out.stat("search");
     }
-    out.finish("real SearchStream/Ldap::search on the scripted transport against a scripted server: (1) every call sequence over {next, finish, state} up to length 5 (6 thorough) x every item-kind sequence over {entry, reference, intermediate} up to length 3 (4) x {direct, EntriesOnly}, x result code {0,4,10,32} (full product); (2) random scripts of 0..8 items with per-item controls, result controls/referrals, endings Done / disconnect / time-out / silence, 0..14 calls incl. start(), filter errors, failed submission; (3) paging adapter in three chain orders, 1..3 pages, all call sequences up to length 4 (5) (length-4 ones: every third when quick); (4) Ldap::search on random scripts. non-trivial = at least one call (1), items+calls >= 2 (2), always (3), at least one item (4); distinct by FNV of the canonical scenario");
+    // 5. referrals from both sources: the SearchResultDone carries 0..3 referral URIs (rc 10 and rc 0)
+    //    and 0..2 reference messages (1..3 URIs each) occur among the entries: search() and
+    //    EntriesOnly::finish() must report done.refs ++ reference URIs, in that order
+    let mut k5 = 0;
+    for rc in [0u32, 10] {
+        for n_done in 0..=3usize {
+            for n_msgs in 0..=2usize {
+                for layout in 0..(if thorough { 6 } else { 3 }) {
+                    let mut script: Vec<Recv> = vec![];
+                    let mut msgs_left = n_msgs;
+                    let n_entries = 1 + layout % 3;
+                    for e in 0..n_entries {
+                        if msgs_left > 0 && (layout + e) % 2 == 0 {
+                            let mut it = mk_item(K::R, &mut toks, vec![]);
+                            it.uris = Some(ref_uris(it.tok, (layout + msgs_left) % 3));
+                            script.push(Recv::Item(it));
+                            msgs_left -= 1;
+                        }
+                        script.push(Recv::Item(mk_item(K::E, &mut toks, vec![])));
+                        if layout % 2 == 1 {
+                            script.push(Recv::Item(mk_item(K::I, &mut toks, vec![])));
+                        }
+                    }
+                    while msgs_left > 0 {
+                        let mut it = mk_item(K::R, &mut toks, vec![]);
+                        it.uris = Some(ref_uris(it.tok, msgs_left % 3));
+                        script.push(Recv::Item(it));
+                        msgs_left -= 1;
+                    }
+                    let refs: Vec<Vec<u8>> = (0..n_done).map(|j| format!("ldap://done{}-{}/", k5, j).into_bytes()).collect();
+                    script.push(Recv::Done(Done { rc, refs: refs.clone(), ctls: vec![], tok: toks.next() }));
+                    let pages = vec![Page::Script(script.clone())];
+                    search_case(&mut out, &Handle::default(), &pages, &format!("rc={} msgs={} layout#{}", rc, n_msgs, layout));
+                    out.case(&format!("search-refs|{}", pages_text(&pages)), true);
+                    out.stat("search-refs-both-sources");
+                    // the same through a stream behind EntriesOnly, read to the end and finished
+                    let n_next = script.iter().filter(|r| matches!(r, Recv::Item(i) if i.k == K::E)).count() + 1;
+                    let mut calls = vec![Call::Next; n_next];
+                    calls.push(Call::Finish);
+                    let sc = Scenario { chain: vec![A::E], handle: Handle::default(), qtok: 1, filter_ok: true, pages: pages.clone(), calls };
+                    let o = check_scenario(&mut out, "streams", &sc, true);
+                    let (done_refs, msg_uris) = script_refs(&pages).unwrap();
+                    let mut want = done_refs.clone();
+                    want.extend(msg_uris.iter().cloned());
+                    let got = o.outputs.last().and_then(|r| r.split('/').nth(1)).unwrap_or("?").to_string();
+                    out.r(
+                        &format!("streams.finish-refs-merged done_refs={} ref_uris={} rc={}", done_refs.len(), msg_uris.len(), rc),
+                        got == hexlist(&want),
+                        &format!("finish() refs {} expected {} ; pages={}", got, hexlist(&want), pages_text(&pages)),
+                    );
+                    k5 += 1;
+                }
+            }
+        }
+    }
+    out.finish("real SearchStream/Ldap::search on the scripted transport against a scripted server: (1) every call sequence over {next, finish, state} up to length 5 (6 thorough) x every item-kind sequence over {entry, reference, intermediate} up to length 3 (4) x {direct, EntriesOnly}, x result code {0,4,10,32} (full product); (2) random scripts of 0..8 items with per-item controls, result controls/referrals, endings Done / disconnect / time-out / silence, 0..14 calls incl. start(), filter errors, failed submission; (3) paging adapter in three chain orders, 1..3 pages, all call sequences up to length 4 (5) (length-4 ones: every third when quick); (4) Ldap::search on random scripts; (5) referrals in the SearchResultDone (0..3, rc 0 and 10) together with 0..2 reference messages, through Ldap::search and through EntriesOnly + finish(). non-trivial = at least one call (1), items+calls >= 2 (2), always (3), at least one item (4); distinct by FNV of the canonical scenario");
 }
